@@ -149,3 +149,11 @@ package rest
 // handler); nothing else is routed ----
 //@ directive route_handlers routes GET:/id=api.idHandler GET:/version=api.versionHandler GET:/peers=api.peerListHandler POST:/peers=api.peerAddHandler DELETE:/peers/{peer}=api.peerRemoveHandler POST:/add=api.addHandler GET:/allocations=api.allocationsHandler GET:/allocations/{hash}=api.allocationHandler GET:/pins=api.statusAllHandler POST:/pins/{hash}/recover=api.recoverHandler POST:/pins/recover=api.recoverAllHandler GET:/pins/{hash}=api.statusHandler POST:/pins/{hash}=api.pinHandler POST:/pins/{keyType:ipfs|ipns|ipld}/{path:.*}=api.pinPathHandler DELETE:/pins/{hash}=api.unpinHandler DELETE:/pins/{keyType:ipfs|ipns|ipld}/{path:.*}=api.unpinPathHandler POST:/ipfs/gc=api.repoGCHandler GET:/health/graph=api.graphHandler GET:/health/alerts=api.alertsHandler GET:/monitor/metrics/{name}=api.metricsHandler GET:/monitor/metrics=api.metricNamesHandler
 //@   property C11
+
+// ---- C18: "shutting a component down while it is in use": the shutdown flag is only read and written with the
+// shutdown lock held, so that concurrent Shutdown calls run the teardown once ----
+//@ guards API.shutdownLock: shutdown
+//@ func (api *API) Shutdown
+//@   property C18
+//@   opts own
+//@   modifies *
